@@ -35,7 +35,7 @@ META = {
                     "AES-CTR: decrypt(k, encrypt(k, d)) = d"],
 }
 
-IMPORTS = ["Lib.Hex", "Model.Dirnode"]
+IMPORTS = ["Lib.Hex", "Model.Dirnode", "Model.DirnodeLit"]
 PREAMBLE = """
 Definition view_eqb (a b : smap (node * bytes)) : bool :=
   Nat.eqb (List.length a) (List.length b) &&
@@ -80,7 +80,7 @@ def dedupe(kids):
 def coq_kids(kids, cls, deep):
     items = []
     for namex, w, ro, label, md in dedupe(kids):
-        items.append("(%s, (%s, %s))" % (T.bytes_(namex.encode("utf-8")), D.coq_cfc(cls, deep, w, ro), T.bytes_(dumps_md(md))))
+        items.append("(%s, (%s, %s))" % (D.B(namex.encode("utf-8")), D.coq_cfc(cls, deep, w, ro), D.B(dumps_md(md))))
     return "[" + "; ".join(items) + "]"
 
 
@@ -91,7 +91,7 @@ def coq_norm(kids):
         a, b = namex.encode("utf-8"), D.nfc(namex).encode("utf-8")
         if a != b and a not in seen:
             seen.add(a)
-            pairs.append("(%s, %s)" % (T.bytes_(a), T.bytes_(b)))
+            pairs.append("(%s, %s)" % (D.B(a), D.B(b)))
     return "(normalize_tbl [%s])" % "; ".join(pairs)
 
 
@@ -100,7 +100,7 @@ def coq_view(children):
     items = []
     for name in sorted(children, key=lambda s: s.encode("utf-8")):
         n, md = children[name]
-        items.append("(%s, (%s, %s))" % (T.bytes_(name.encode("utf-8")), D.coq_node(D.node_obs(n)), T.bytes_(dumps_md(md))))
+        items.append("(%s, (%s, %s))" % (D.B(name.encode("utf-8")), D.coq_node(D.node_obs(n)), D.B(dumps_md(md))))
     return "[" + "; ".join(items) + "]"
 
 
@@ -112,7 +112,7 @@ def aes_table(writekey, rws):
         if key in seen:
             continue
         seen.add(key)
-        items.append("(%s, %s)" % (T.bytes_(key), T.bytes_(D.aes_ctr(key, b"\0" * len(rw)))))
+        items.append("(%s, %s)" % (D.B(key), D.B(D.aes_ctr(key, b"\0" * len(rw)))))
     return "(aes_tbl [%s])" % "; ".join(items)
 
 
@@ -209,7 +209,7 @@ def mutable_case(ctx, i, terms, info, outside=False):
         cls = tbl.coq()
         rws = [D.node_obs(n)[1] or b"" for n in nodes]
         lets = "let cls := %s in let nrm := %s in let aes := %s in let kids := %s in let wk := %s in " % (
-            cls, coq_norm(kids), aes_table(wk, rws), coq_kids(kids, "cls", False), T.bytes_(wk))
+            cls, coq_norm(kids), aes_table(wk, rws), coq_kids(kids, "cls", False), D.B(wk))
         if exp_pack is not None:
             t = lets + "match pack_children nrm bytes dumps_raw aes kids (Some wk) false with inl e => derr_eqb e %s | inr _ => false end" % exp_pack[4:]
         else:
@@ -220,7 +220,7 @@ def mutable_case(ctx, i, terms, info, outside=False):
                         "list_N_eqb d %s && %s && "
                         "match unpack_contents cls nrm bytes loads_raw aes true true wk d with inr ch => view_eqb (view bytes ch) %s | inl _ => false end && "
                         "match unpack_contents cls nrm bytes loads_raw aes false true [] d with inr ch => view_eqb (view bytes ch) %s | inl _ => false end end"
-                        % (T.bytes_(packed), stab, coq_view(children), coq_view(children_ro)))
+                        % (D.B(packed), stab, coq_view(children), coq_view(children_ro)))
         terms.append(t)
         info.append(case)
 
@@ -311,7 +311,7 @@ def immutable_case(ctx, i, terms, info):
         else:
             t = lets + ("match pack_children nrm bytes dumps_raw idc kids None true with inl _ => false | inr d => list_N_eqb d %s && "
                         "match unpack_contents cls nrm bytes loads_raw idc false false [] d with inr ch => view_eqb (view bytes ch) %s | inl _ => false end end"
-                        % (T.bytes_(packed), coq_view(children)))
+                        % (D.B(packed), coq_view(children)))
         terms.append(t)
         info.append(case)
 
